@@ -4,6 +4,7 @@
 import TboxModel.Util
 import TboxModel.C11.Model
 import TboxModel.C11.Arena
+import TboxModel.C11.Vars
 open Tbox.Util Tbox.C11
 
 def evStr : Ev → String
@@ -178,6 +179,13 @@ def step (g : Bool) (a : AState) (ws : List String) : Option (AState × List Str
   | [op, n] => do
       let n ← id? n
       if !(a.σ n).alive || (a.σ n).hasParent then none
+      else if op == "fillinit" then
+        -- js = {}; root.fillDefaultConfig(js); root.initialize(js)
+        let σ1 := fillAll 1000 a.σ n
+        let r := aCall g fuel0 σ1 n .init true
+        -- the filled object lives for this call only: the modules' own cfg flags are what later `init` ops use
+        let σ2 := a.ids.foldl (fun acc k => let x := acc.get k; acc.set k { x with cfg := (a.σ.get k).cfg }) r.σ
+        pure ({ a with σ := σ2 }, resLine a { r with σ := σ2 }, false)
       else if op == "destroy" then
         let r := aDestroy g fuel0 a.σ n
         pure ({ a with σ := r.σ }, resLine a r, false)
@@ -190,6 +198,67 @@ def step (g : Bool) (a : AState) (ws : List String) : Option (AState × List Str
   | _ => none
 end AState
 
+/-! ### util::Variables ops -/
+namespace VOps
+open Tbox.C11.Vars
+
+def ext (a : AState) (k : Nat) : Option (Option Nat) :=
+  if k < 1000 then some (if (a.σ.get k).alive && (a.σ.get k).hasParent then some (a.σ.get k).parent else none) else none
+
+/-- `v<k>` = stand-alone object k (must exist), `m<id>` = the `vars()` of a live module -/
+def target? (a : AState) (v : VStore) (w : String) : Option (Nat × Bool) :=
+  match w.toList with
+  | 'v' :: r => do
+      let k ← (String.ofList r).toNat?
+      if k < 16 && v.l.any (fun p => p.1 == 2000 + k) then some (2000 + k, true) else none
+  | 'm' :: r => do
+      let k ← id? (String.ofList r)
+      if (a.σ.get k).alive then some (k, false) else none
+  | _ => none
+
+def name? (w : String) : Option String := if w.length ≥ 1 && w.length ≤ 3 && w.toList.all Char.isLower then some w else none
+
+def vline (ret : Bool) (val : Option Int) : List String :=
+  ["P ret=" ++ (if ret then "1" else "0") ++ " val=" ++ (match val with | some x => toString x | none => "-")]
+
+def step (a : AState) (v : VStore) (ws : List String) : Option (VStore × List String) :=
+  match ws with
+  | ["vnew", k] => do
+      let k ← k.toNat?
+      if k < 16 && !(v.l.any fun p => p.1 == 2000 + k) then pure (v.set (2000 + k) {}, vline true none) else none
+  | ["vpar", x, y] => do
+      let (kx, sx) ← target? a v x
+      if !sx then none
+      else if y == "-" then pure ((setParent v (ext a) kx none).1, vline true none)
+      else
+        let (ky, sy) ← target? a v y
+        if !sy then none
+        else let r := setParent v (ext a) kx (some ky); pure (r.1, vline r.2 none)
+  | ["vdef", x, n, val] => do
+      let (k, _) ← target? a v x; let n ← name? n; let val ← intOfString? val
+      let r := define v k n val; pure (r.1, vline r.2 none)
+  | ["vundef", x, n] => do
+      let (k, _) ← target? a v x; let n ← name? n
+      let r := undefine v k n; pure (r.1, vline r.2 none)
+  | ["vhas", x, n, l] => do
+      let (k, _) ← target? a v x; let n ← name? n; let l ← bool? l
+      pure (v, vline (findDef v (ext a) fuelV k n l).isSome none)
+  | ["vget", x, n, l] => do
+      let (k, _) ← target? a v x; let n ← name? n; let l ← bool? l
+      let r := findDef v (ext a) fuelV k n l
+      pure (v, vline r.isSome (r.map (·.2)))
+  | ["vset", x, n, val, l] => do
+      let (k, _) ← target? a v x; let n ← name? n; let val ← intOfString? val; let l ← bool? l
+      let r := setVar v (ext a) k n val l; pure (r.1, vline r.2 none)
+  | ["vcopy", x, y] => do
+      let (kx, sx) ← target? a v x; let (ky, sy) ← target? a v y
+      if !sx || !sy then none else pure (copy v (ext a) kx ky, vline true none)
+  | ["vswap", x, y] => do
+      let (kx, sx) ← target? a v x; let (ky, sy) ← target? a v y
+      if !sx || !sy then none else pure (swap v (ext a) kx ky, vline true none)
+  | _ => none
+end VOps
+
 /-- driver state: the forest (tree model; dropped once a hook script is installed), the arena,
 whether branch tags are switched off, whether the case is scripted -/
 structure DState where
@@ -197,20 +266,29 @@ structure DState where
   quiet : Bool := false
   a : AState := {}
   scripted : Bool := false
+  v : Vars.VStore := {}
 
-def stepLine (rb g : Bool) (st : DState) (ln : String) : DState × List String :=
+def stepLine (rb g : Bool) (st0 : DState) (ln : String) : DState × List String :=
   let ws := words ln
+  -- a new module starts with an empty vars() object
+  let st : DState := match ws with
+    | "new" :: n :: _ => (match id? n with | some k => { st0 with v := st0.v.set k {} } | none => st0)
+    | _ => st0
   match ws with
   | [] => (st, [])
   | "case" :: _ => ({}, [ln.trimAscii.toString])
   | ["quiet"] => ({ st with quiet := true }, ["P quiet"])
   | _ =>
-    if st.quiet then
+    if !st.quiet && (ws.head?.map (·.startsWith "v")) == some true then
+      match VOps.step st.a st.v ws with
+      | none => (st, ["bad-op"])
+      | some (v', ls) => ({ st with v := v' }, ["B vars"] ++ ls)
+    else if st.quiet then
       -- exhaustive small-scope runs: tree model only, no tags
       match stepOp rb st.f ws with
       | none => (st, ["bad-op"])
       | some r => ({ st with f := r.1 }, r.2.filter (fun l => !l.startsWith "B "))
-    else if st.scripted || ws.head? == some "hook" then
+    else if st.scripted || ws.head? == some "hook" || ws.head? == some "fillinit" then
       match AState.step g st.a ws with
       | none => (st, ["bad-op"])
       | some (a', ls, differs) =>
